@@ -1,3 +1,165 @@
-// unit store: harnesses for sdk/src/store.rs (included by the cfg(kani) hook at the end of that file)
+// unit store: sdk/src/store.rs (included by the cfg(kani) hook at the end of that file)
+// C19 (Engine B) for the traversal that Verus cannot take (HashMap/HashSet entry API, log_item!, 100 lines):
+// Store::get_claim_referenced_manifests over EVERY ingredient graph on up to 4 manifests:
+//   terminates; a cycle reachable from the active manifest => Err (CyclicIngredients, logged as ingredient.malformed);
+//   no reachable cycle and no dangling reference => Ok and every reachable manifest is recorded;
+//   a chain deeper than MAX_INGREDIENT_DEPTH is refused.
 #[allow(unused_imports)]
 use super::*;
+
+#[cfg(test)]
+mod c19 {
+    use super::*;
+    use crate::{hashed_uri::HashedUri, jumbf::labels::to_manifest_uri, status_tracker::ErrorBehavior, ClaimGeneratorInfo};
+
+    // adjacency: edges[i] = list of targets (node indices; an index >= n is a dangling reference)
+    fn graph_store(n: usize, edges: &[Vec<usize>]) -> (Store, Vec<String>) {
+        let mut claims: Vec<Claim> = (0..n)
+            .map(|i| {
+                let mut c = Claim::new("verif_graph", Some(&format!("node{i}")), 2);
+                c.add_claim_generator_info(ClaimGeneratorInfo::new("test"));
+                c
+            })
+            .collect();
+        let mut labels: Vec<String> = claims.iter().map(|c| c.label().to_owned()).collect();
+        labels.push("urn:c2pa:00000000-0000-0000-0000-00000000dead".to_string()); // the dangling target
+        for (i, targets) in edges.iter().enumerate() {
+            for t in targets {
+                let uri = HashedUri::new(to_manifest_uri(&labels[(*t).min(n)]), Some(claims[i].alg().to_owned()), &[0u8; 32]);
+                let ingredient = Ingredient::new_v2(format!("n{t}"), "image/jpeg").set_c2pa_manifest_from_hashed_uri(Some(uri));
+                let _ = claims[i].add_assertion(&ingredient);
+            }
+        }
+        let mut store = Store::new();
+        for (label, claim) in labels.iter().zip(claims) {
+            store.insert_restored_claim(label.clone(), claim);
+        }
+        (store, labels)
+    }
+
+    // reference: reachable set and whether a cycle / a dangling edge is reachable from `active`
+    fn analyse(n: usize, edges: &[Vec<usize>], active: usize) -> (Vec<bool>, bool, bool) {
+        let mut reach = vec![false; n];
+        let mut stack = vec![active];
+        let mut dangling = false;
+        while let Some(v) = stack.pop() {
+            if reach[v] {
+                continue;
+            }
+            reach[v] = true;
+            for &t in &edges[v] {
+                if t >= n {
+                    dangling = true;
+                } else if !reach[t] {
+                    stack.push(t);
+                }
+            }
+        }
+        // cycle among reachable nodes: colour DFS
+        fn dfs(v: usize, n: usize, edges: &[Vec<usize>], col: &mut Vec<u8>) -> bool {
+            col[v] = 1;
+            for &t in &edges[v] {
+                if t >= n {
+                    continue;
+                }
+                if col[t] == 1 || (col[t] == 0 && dfs(t, n, edges, col)) {
+                    return true;
+                }
+            }
+            col[v] = 2;
+            false
+        }
+        let mut col = vec![0u8; n];
+        let cyc = dfs(active, n, edges, &mut col);
+        (reach, cyc, dangling)
+    }
+
+    #[test]
+    fn c19_referenced_manifest_walk_all_small_graphs() {
+        let thorough = std::env::var("VERIF_B_TIER").map(|t| t == "thorough").unwrap_or(false);
+        let mut evals = 0usize;
+        let mut nontrivial = 0usize;
+        let mut counts: std::collections::BTreeMap<String, usize> = std::collections::BTreeMap::new();
+        let mut bad = |k: &str, input: String, counts: &mut std::collections::BTreeMap<String, usize>| {
+            let c = counts.entry(k.to_string()).or_insert(0);
+            *c += 1;
+            if *c <= 3 {
+                println!("VERIF-B-VIOLATION key={k} input={input}");
+            }
+        };
+        for n in 1..=4usize {
+            // every subset of the n*n possible edges (n = 4: 65536 graphs; quick tier takes every 7th), the last node is active;
+            // plus, for n <= 3, one dangling reference from each node
+            let total: u64 = 1u64 << (n * n);
+            let step: u64 = if n == 4 && !thorough { 7 } else { 1 };
+            let mut mask = 0u64;
+            while mask < total {
+                for dangling_from in std::iter::once(None).chain(if n <= 3 { (0..n).map(Some).collect::<Vec<_>>() } else { vec![] }) {
+                    let mut edges: Vec<Vec<usize>> = vec![Vec::new(); n];
+                    for i in 0..n {
+                        for j in 0..n {
+                            if mask & (1 << (i * n + j)) != 0 {
+                                edges[i].push(j);
+                            }
+                        }
+                    }
+                    if let Some(d) = dangling_from {
+                        edges[d].push(n);
+                    }
+                    let active = n - 1;
+                    let (reach, cyc, dangling) = analyse(n, &edges, active);
+                    evals += 1;
+                    if cyc || reach.iter().filter(|r| **r).count() > 1 {
+                        nontrivial += 1;
+                    }
+                    let (store, labels) = graph_store(n, &edges);
+                    let Some(active_claim) = store.get_claim(&labels[active]) else { continue };
+                    let mut svi = StoreValidationInfo::default();
+                    let mut log = StatusTracker::with_error_behavior(ErrorBehavior::StopOnFirstError);
+                    let r = Store::get_claim_referenced_manifests(active_claim, &store, &mut svi, true, &mut log);
+                    let desc = || format!("n={n} edges={edges:?} active={active}");
+                    match (&r, cyc, dangling) {
+                        (Ok(()), true, _) => bad("ingredient_graph.cycle_accepted", desc(), &mut counts),
+                        (Err(Error::CyclicIngredients { .. }), true, _) => {
+                            if !log.has_status(validation_status::ASSERTION_INGREDIENT_MALFORMED) {
+                                bad("ingredient_graph.cycle_not_logged_as_malformed", desc(), &mut counts);
+                            }
+                        }
+                        (Err(_), true, _) => {} // a dangling edge may be reported first
+                        (Ok(()), false, false) => {
+                            for v in 0..n {
+                                if reach[v] != svi.manifest_map.contains_key(&labels[v]) {
+                                    bad("ingredient_graph.reachable_set_differs", desc(), &mut counts);
+                                    break;
+                                }
+                            }
+                        }
+                        (Ok(()), false, true) => bad("ingredient_graph.dangling_reference_accepted", desc(), &mut counts),
+                        (Err(Error::CyclicIngredients { .. }), false, _) => bad("ingredient_graph.acyclic_graph_reported_cyclic", desc(), &mut counts),
+                        (Err(_), false, true) => {}
+                        (Err(e), false, false) => bad("ingredient_graph.well_formed_graph_rejected", format!("{} -> {e:?}", desc()), &mut counts),
+                    }
+                }
+                mask += step;
+            }
+        }
+        // an over-deep chain: MAX_INGREDIENT_DEPTH + 1 manifests in a line
+        {
+            let n = MAX_INGREDIENT_DEPTH + 1;
+            let edges: Vec<Vec<usize>> = (0..n).map(|i| if i == 0 { vec![] } else { vec![i - 1] }).collect();
+            let (store, labels) = graph_store(n, &edges);
+            if let Some(active_claim) = store.get_claim(&labels[n - 1]) {
+                let mut svi = StoreValidationInfo::default();
+                let mut log = StatusTracker::with_error_behavior(ErrorBehavior::StopOnFirstError);
+                evals += 1;
+                nontrivial += 1;
+                if Store::get_claim_referenced_manifests(active_claim, &store, &mut svi, true, &mut log).is_ok() {
+                    bad("ingredient_graph.over_deep_chain_accepted", format!("chain of {n} manifests"), &mut counts);
+                }
+            }
+        }
+        println!("VERIF-B-SAMPLE n=3 edges=[[1],[0],[1]] active=2 -> cycle below the active manifest must be CyclicIngredients");
+        println!("VERIF-B-SAMPLE violation classes this run: {:?}", counts);
+        println!("VERIF-B unit=store test=c19_referenced_manifest_walk_all_small_graphs evaluations={evals} nontrivial={nontrivial} exhaustive={} domain=every directed ingredient graph on 1..=3 manifests (all edge subsets, optional dangling reference) and on 4 manifests ({}), last manifest active; one chain of MAX_INGREDIENT_DEPTH+1", thorough, if thorough { "all 65536" } else { "every 7th of 65536" });
+    }
+}
